@@ -551,6 +551,9 @@ class SpecEvalMixin:
         if isinstance(v, VRef):
             d = self.field_decl(v.cls, attr)
             if d is None:
+                hk = self.reg.specfns.get("hasattr_class_attr:" + attr)
+                if hk is not None:
+                    return hk(self, st, v).t
                 raise Unsupported(f"hasattr({v.cls}, {attr!r}): attribute not in model")
             if not d[2]:
                 return TRUE
